@@ -1,5 +1,6 @@
 import ObiVerif.Lemmas.Uniq
 import ObiVerif.Lemmas.UniqDemerge
+import ObiVerif.Lemmas.UniqSort
 /-!
 # C06 — dereplication conserves counts and merges exactly the identical records (property theorems)
 
@@ -322,6 +323,175 @@ theorem demerge_uniq (h h' : Seq → Nat) (o : Opts) (input : List Rec) (k : Str
     exact (contrib_demerge1 o.na k out m hm hpos v).1
   · rw [hc2, hclass]
     exact (contrib_demerge1 o.na k out m hm hpos "").2
+
+/-! ## the loop-level model (`Model/UniqLoop.lean`): classifiers, `ISequenceSubChunk` loop by loop, one chain
+per worker — refinement to the abstraction above
+
+`uniqL srt o ws` : `srt` is what `sort.Sort` does (any function returning a permutation of its argument
+ordered by code: `ValidSorter`), `ws` the hash chunks every worker receives, in the order it receives them
+(`ChunksOK h input ws`: up to order, the partition of the input by hash code — any assignment of the chunks to
+any number of workers, any order of the chunks, any order of the records inside a chunk). -/
+
+/-- `SequenceClassifier` / `AnnotationClassifier` are exact inside a batch, whatever they classified before the
+`Reset` (the codes of an `AnnotationClassifier` go on from the old `maxcode`): equal values ⇒ equal codes,
+distinct values ⇒ distinct codes -/
+theorem classifier_exact (kind : Kind) (f : Rec → Code) (st : ClsSt) (b : List Rec) :
+    ∀ p ∈ (codeAll f (st.reset kind) b).2, ∀ q ∈ (codeAll f (st.reset kind) b).2,
+      (p.1 = q.1 ↔ f p.2 = f q.2) :=
+  codeAll_exact f (st.reset kind) (ClsSt.reset_inv kind st) b
+
+/-- `HashClassifier` guarantees only: same sequence ⇒ same chunk.  That is all the pipeline needs: every
+theorem of this file holds for every chunk function `h`. -/
+theorem hash_same_chunk (size : Nat) (r r' : Rec) (e : r.seq = r'.seq) :
+    hashC (hashCode size) r = hashC (hashCode size) r' := by simp [hashC, e]
+
+/-- `ISequenceSubChunk` loop by loop (Reset, coding loop, any unstable sort, cut loop) against its abstraction
+`subChunk`: the same classes up to the order of the members -/
+theorem subChunkL_refines (kind : Kind) (f : Rec → Code) (srt : Sorter) (hs : ValidSorter srt) (st : ClsSt)
+    (b : List Rec) (hb : b ≠ []) :
+    (∀ t ∈ (subChunkL kind f srt st b).2, ∃ t' ∈ subChunk f b, t.Perm t') ∧
+    (∀ t' ∈ subChunk f b, ∃ t ∈ (subChunkL kind f srt st b).2, t.Perm t') :=
+  subChunkL_subChunk kind f srt hs st b hb
+
+/-- every output record of the loop-level pipeline is the merge of the whole class of its key -/
+theorem uniqL_isOutput (srt : Sorter) (hs : ValidSorter srt) (h : Seq → Nat) (o : Opts) (input : List Rec)
+    (ws : List (List (List Rec))) (hws : ChunksOK h input ws) (ok : InputOK o input) :
+    ∀ out ∈ uniqL srt o ws, IsOutput o input out := by
+  intro out hout
+  obtain ⟨t, ht, _, hm⟩ := mem_uniqL.mp hout
+  obtain ⟨x, hx, hp⟩ := (terminalsL_classes srt hs h o input ws hws).1 t ht
+  obtain ⟨out', hm', hio, _, _⟩ := class_output o input ok.stats_nodup ok.counts ok.wf t x hx hp
+  rw [hm] at hm'; cases hm'; exact hio
+
+/-- loop level, without `--no-singleton`: exactly one output record per distinct key of the input -/
+theorem uniqL_keys (srt : Sorter) (hs : ValidSorter srt) (h : Seq → Nat) (o : Opts) (input : List Rec)
+    (ws : List (List (List Rec))) (hws : ChunksOK h input ws) (ok : InputOK o input)
+    (hns : o.noSingleton = false) :
+    ((uniqL srt o ws).map (key o)).Nodup ∧
+    ∀ κ, κ ∈ (uniqL srt o ws).map (key o) ↔ κ ∈ input.map (key o) := by
+  obtain ⟨hcls, hsep, hperm⟩ := terminalsL_classes srt hs h o input ws hws
+  have hout : ∀ t ∈ terminalsL srt o ws, ∀ b, mergeClass o.na o.stats t = some b →
+      ∀ a ∈ t, key o a = key o b := by
+    intro t ht b hb a ha
+    obtain ⟨x, hx, hp⟩ := hcls t ht
+    obtain ⟨out', hm', _, hk, _⟩ := class_output o input ok.stats_nodup ok.counts ok.wf t x hx hp
+    rw [hb] at hm'; cases hm'
+    have := List.mem_filter.mp (hp.mem_iff.mp ha)
+    rw [hk]; simpa [classOf] using this.2
+  constructor
+  · unfold List.Nodup uniqL
+    rw [List.pairwise_map, List.pairwise_filterMap]
+    refine List.Pairwise.imp_of_mem ?_ (List.Pairwise.filter _ hsep)
+    intro t t' ht ht' hh b hb b' hb' ek
+    have ht := (List.mem_filter.mp ht).1
+    have ht' := (List.mem_filter.mp ht').1
+    obtain ⟨x, hx, _⟩ := hcls t ht
+    obtain ⟨x', hx', _⟩ := hcls t' ht'
+    exact hh x hx x' hx' (by rw [hout t ht b hb x hx, hout t' ht' b' hb' x' hx', ek])
+  · intro κ
+    simp only [List.mem_map]
+    constructor
+    · rintro ⟨out, hout', rfl⟩
+      obtain ⟨x, hx, _⟩ := (uniqL_isOutput srt hs h o input ws hws ok out hout').rep
+      have := List.mem_filter.mp hx
+      exact ⟨x, this.1, by simpa [classOf] using this.2⟩
+    · rintro ⟨x, hx, rfl⟩
+      obtain ⟨t, ht, hxt⟩ := List.mem_flatten.mp (hperm.mem_iff.mpr hx)
+      obtain ⟨y, hy, hp⟩ := hcls t ht
+      obtain ⟨out, hm, _, _, _⟩ := class_output o input ok.stats_nodup ok.counts ok.wf t y hy hp
+      exact ⟨out, mem_uniqL.mpr ⟨t, ht, not_dropped_of_all hns _, hm⟩, (hout t ht out hm x hxt).symm⟩
+
+/-- loop level: the total count is conserved -/
+theorem uniqL_total (srt : Sorter) (hs : ValidSorter srt) (h : Seq → Nat) (o : Opts) (input : List Rec)
+    (ws : List (List (List Rec))) (hws : ChunksOK h input ws) (ok : InputOK o input)
+    (hns : o.noSingleton = false) : total (uniqL srt o ws) = total input := by
+  obtain ⟨hcls, _, hperm⟩ := terminalsL_classes srt hs h o input ws hws
+  have e : (terminalsL srt o ws).filter (fun b => !dropped o b) = terminalsL srt o ws :=
+    List.filter_eq_self.mpr fun t _ => by simp [not_dropped_of_all hns t]
+  unfold uniqL
+  rw [e]
+  show (((terminalsL srt o ws).filterMap (mergeClass o.na o.stats)).map Rec.count).sum = total input
+  rw [filterMap_map_eq (terminalsL srt o ws) (mergeClass o.na o.stats) Rec.count total]
+  · rw [← total_flatten]; exact total_perm hperm
+  · intro t ht
+    obtain ⟨x, hx, hp⟩ := hcls t ht
+    obtain ⟨out, hm, _, _, hc⟩ := class_output o input ok.stats_nodup ok.counts ok.wf t x hx hp
+    exact ⟨out, hm, hc⟩
+
+/-- two records that are both "the output for their key" and have the same key are observably equal -/
+theorem obsEq_of_isOutput (o : Opts) (input : List Rec) (a b : Rec) (ha : IsOutput o input a)
+    (hb : IsOutput o input b) (hk : key o a = key o b) : ObsEq o a b := by
+  refine ⟨?_, hk, ?_, ?_, ?_⟩
+  · have := congrArg Prod.fst hk
+    simpa [key] using this
+  · rw [ha.count, hb.count, hk]
+  · intro k hks v
+    obtain ⟨m, hm1, hw1⟩ := ha.merged k hks
+    obtain ⟨m', hm2, hw2⟩ := hb.merged k hks
+    simp only [mweight, hm1, hm2, Option.getD_some]
+    rw [hw1 v, hw2 v, hk]
+  · intro kv
+    rw [ha.attrs kv, hb.attrs kv, hk]
+
+/-- **refinement of the whole pipeline**: for every sort, every assignment of the chunks to the workers and
+every arrival order, every output record of the loop-level pipeline has an observably equal output record in
+the abstract model `uniq` (for any chunk function `h'`), with or without `--no-singleton`, and conversely —
+so every theorem above on `uniq` is a theorem on the loop-level transcription -/
+theorem uniqL_refines (srt : Sorter) (hs : ValidSorter srt) (h h' : Seq → Nat) (o : Opts) (input : List Rec)
+    (ws : List (List (List Rec))) (hws : ChunksOK h input ws) (ok : InputOK o input) :
+    (∀ out ∈ uniqL srt o ws, ∃ out' ∈ uniq h' o input, ObsEq o out out') ∧
+    (∀ out' ∈ uniq h' o input, ∃ out ∈ uniqL srt o ws, ObsEq o out' out) := by
+  obtain ⟨hcls, _, hperm⟩ := terminalsL_classes srt hs h o input ws hws
+  obtain ⟨hcls', hcover', _, _⟩ := terminals_classes h' o input
+  -- a loop-level terminal and an abstract terminal that share a record: same fate, observably equal merges
+  have hpair : ∀ t ∈ terminalsL srt o ws, ∀ t' ∈ terminals h' o input, ∀ x, x ∈ t → x ∈ t' →
+      dropped o t = dropped o t' ∧ ∃ a b, mergeClass o.na o.stats t = some a ∧
+        mergeClass o.na o.stats t' = some b ∧ ObsEq o a b := by
+    intro t ht t' ht' x hxt hxt'
+    obtain ⟨y, hy, hp⟩ := hcls t ht
+    obtain ⟨a, hma, hia, hka, hca⟩ := class_output o input ok.stats_nodup ok.counts ok.wf t y hy hp
+    obtain ⟨b, hmb, hib, eb, hcb⟩ := terminal_output h' o input ok.stats_nodup ok.counts ok.wf t' ht'
+    have hx1 : key o x = key o y := by
+      have := List.mem_filter.mp (hp.mem_iff.mp hxt); simpa [classOf] using this.2
+    have hx2 : key o x = key o b := by
+      rw [eb] at hxt'
+      have := List.mem_filter.mp hxt'; simpa [classOf] using this.2
+    have hk : key o a = key o b := by rw [hka, ← hx1, hx2]
+    have hpt : t.Perm t' := by rw [eb, ← hk, hka]; exact hp
+    refine ⟨?_, a, b, hma, hmb, obsEq_of_isOutput o input a b hia hib hk⟩
+    have hne : t ≠ [] := List.ne_nil_of_mem hxt
+    have hne' : t' ≠ [] := List.ne_nil_of_mem hxt'
+    have hsub : ∀ r ∈ t, 1 ≤ r.count := fun r hr =>
+      ok.counts r (hperm.mem_iff.mp (List.mem_flatten.mpr ⟨t, ht, hr⟩))
+    have hsub' : ∀ r ∈ t', 1 ≤ r.count := fun r hr => hsub r (hpt.mem_iff.mpr hr)
+    rw [dropped_iff o t hne hsub, dropped_iff o t' hne' hsub', total_perm hpt]
+  constructor
+  · intro out hout
+    obtain ⟨t, ht, hnd, hm⟩ := mem_uniqL.mp hout
+    obtain ⟨y, hy, hp⟩ := hcls t ht
+    have hyin : y ∈ input := hperm.mem_iff.mp (List.mem_flatten.mpr ⟨t, ht, hy⟩)
+    have ht' := hcover' y hyin
+    have hyt' : y ∈ input.filter (fun r => decide (key o r = key o y)) := by simp [hyin]
+    obtain ⟨hd, a, b, hma, hmb, hobs⟩ := hpair t ht _ ht' y hy hyt'
+    rw [hm] at hma; cases hma
+    exact ⟨b, mem_uniq.mpr ⟨_, ht', by rw [← hd]; exact hnd, hmb⟩, hobs⟩
+  · intro out' hout'
+    obtain ⟨t', ht', hnd, hm⟩ := mem_uniq.mp hout'
+    obtain ⟨y, hy, et⟩ := hcls' t' ht'
+    have hyin : y ∈ input := by rw [et] at hy; exact (List.mem_filter.mp hy).1
+    obtain ⟨t, ht, hyt⟩ := List.mem_flatten.mp (hperm.mem_iff.mpr hyin)
+    obtain ⟨hd, a, b, hma, hmb, hobs⟩ := hpair t ht t' ht' y hyt hy
+    rw [hm] at hmb; cases hmb
+    obtain ⟨e1, e2, e3, e4, e5⟩ := hobs
+    exact ⟨a, mem_uniqL.mpr ⟨t, ht, by rw [hd]; exact hnd, hma⟩,
+      e1.symm, e2.symm, e3.symm, fun k hk v => (e4 k hk v).symm, fun kv => (e5 kv).symm⟩
+
+/-- non-vacuity of the loop-level hypotheses: the two executable sorts are sorts, and the chunks `Distribute`
+makes (`group (hashC h) input`), dealt to any number of workers, are `ChunksOK` -/
+example : ValidSorter sortStable ∧ ValidSorter sortAnti := ⟨sortStable_valid, sortAnti_valid⟩
+
+example (h : Seq → Nat) (input : List Rec) : ChunksOK h input [group (hashC h) input] :=
+  chunksOK_of_perm h input _ (by simp)
 
 /-! ## non-vacuity (tests on a concrete input, not proofs of the property) -/
 
